@@ -127,7 +127,7 @@ static RunResult runLayout(const Case &c)
             }
             if (c.flags & 8) alg.setUseNeighbourStress(true);
             if (c.flags & 2) alg.makeFeasible();
-            alg.run();
+            if (!(c.flags & 32)) alg.run();        // flag 32: makeFeasible() alone
         }
     } catch (vpsc::CriticalFailure &f) { R.thrown = true; R.what = f.what(); }
     catch (std::exception &e) { R.thrown = true; R.what = e.what(); }
